@@ -152,3 +152,17 @@ pub proof fn lemma_enum_exists<K, V>(m: Map<K, V>) ensures exists|ks: Seq<K>| is
     }
     assert(is_enum(m, ks));
 }
+/// a sequence of references denotes the sequence of their targets
+pub open spec fn refs_of<T>(r: Seq<&T>, s: Seq<T>) -> bool { r.len() == s.len() && forall|q: int| 0 <= q < s.len() ==> *(#[trigger] r[q]) == s[q] }
+pub proof fn lemma_fsum_take_next<T>(s: Seq<T>, f: spec_fn(T) -> int, j: int)
+    requires 0 <= j < s.len()
+    ensures fsum(s.take(j + 1), f) == fsum(s.take(j), f) + f(s[j])
+{ assert(s.take(j + 1).drop_last() =~= s.take(j)); }
+pub proof fn lemma_fsum_take_le<T>(s: Seq<T>, f: spec_fn(T) -> int, j: int)
+    requires 0 <= j <= s.len(), forall|x: T| #[trigger] f(x) >= 0
+    ensures 0 <= fsum(s.take(j), f) <= fsum(s, f)
+    decreases s.len() - j
+{
+    lemma_fsum_nonneg(s.take(j), f);
+    if j == s.len() { assert(s.take(j) =~= s); } else { lemma_fsum_take_next(s, f, j); lemma_fsum_take_le(s, f, j + 1); }
+}
